@@ -122,7 +122,7 @@ def main():
                     for prop in props_for(rel):
                         try:
                             q = subprocess.run(
-                                ["/verif/check", prop, "--no-evidence",
+                                [os.environ.get("RETRIAGE_CHECK", "/verif/check"), prop, "--no-evidence",
                                  "--jobs", "4"],
                                 env=dict(os.environ, VERIF_REPO=scratch),
                                 capture_output=True, text=True, timeout=1500)
